@@ -197,6 +197,7 @@ func runC12(p *Prog, r *Report) {
 	sharedMapAliasRule(p, r, "C12.R12")
 	armEffectRule(p, r, "C12.R13", "config.parseConverterLine", "output:package", "OutputPackagePath", "OutputPackageName")
 	requireStructRule(p, r, "C12.R15")
+	overrideOverlapRule(p, r, "C12.R16")
 	settingLinesTrimRule(p, r, "C12.R14")
 	armStoresRule(p, r, "C12.R8", "config.parseMethodLine", allArmKeys("config.parseMethodLine")...)
 	armStoresRule(p, r, "C12.R9", "config.parseConverterLine", allArmKeys("config.parseConverterLine")...)
